@@ -26,6 +26,7 @@ type TSpec struct {
 	MaxDelay int    `json:"max_delay"` // -1 default, 0 none, else tDelay index
 	Self     string `json:"self,omitempty"` // requeue | resched | cancel | cancelsib | prio
 	SelfArg  int    `json:"self_arg,omitempty"`
+	Panic    bool   `json:"panic,omitempty"` // the first execution ends in a panic
 }
 
 // TOp is one client operation.
@@ -61,6 +62,7 @@ func genTasks(rng *rand.Rand, tier string) *TaskPlan {
 			t.Self = []string{"requeue", "resched", "cancel", "cancelsib", "prio"}[rng.IntN(5)]
 			t.SelfArg = rng.IntN(len(tDelay))
 		}
+		t.Panic = rng.IntN(8) == 0
 		p.Tasks = append(p.Tasks, t)
 	}
 	nc := 1 + rng.IntN(3)
@@ -91,6 +93,14 @@ func genTasks(rng *rand.Rand, tier string) *TaskPlan {
 	}
 	if rng.IntN(4) == 0 {
 		p.MTLoad = 1 + rng.IntN(p.Limit+1)
+	}
+	for i, t := range p.Tasks {
+		if t.Panic && rng.IntN(2) == 0 {
+			// a failed execution, then, well after it, the task is wanted again
+			c := rng.IntN(len(p.Clients))
+			p.Clients[c] = append([]TOp{{Task: i, Op: "queue"}}, p.Clients[c]...)
+			p.Clients[c] = append(p.Clients[c], TOp{Op: "sleep", Arg: 2 + rng.IntN(2)}, TOp{Task: i, Op: []string{"queue", "prio", "asap"}[rng.IntN(3)]})
+		}
 	}
 	return p
 }
@@ -134,7 +144,19 @@ type taskState struct {
 
 func (s *taskState) do(task int, op string, arg int, inside bool) {
 	t := s.tasks[task]
-	r := &tOpRec{Task: task, Op: op, Inv: simrt.Seq(), T: simrt.Now(), Inside: inside, Busy: modules.VerifSimTaskExecuting(t)}
+	busy := modules.VerifSimTaskExecuting(t)
+	if busy && len(s.commits) > task && len(s.commits[task]) > 0 {
+		// The flag is up. That is "an execution in progress" while the function has not returned or the package is
+		// cleaning up after it; it is not when the function returned long ago (e.g. with a panic) and the flag was
+		// simply never taken down.
+		c := s.commits[task][len(s.commits[task])-1]
+		for _, e := range s.execs {
+			if e.Task == task && e.BeginSeq > c && e.Ended && simrt.Now()-e.EndT > 30*time.Second {
+				busy = false
+			}
+		}
+	}
+	r := &tOpRec{Task: task, Op: op, Inv: simrt.Seq(), T: simrt.Now(), Inside: inside, Busy: busy}
 	s.ops = append(s.ops, r)
 	switch op {
 	case "queue":
@@ -200,6 +222,11 @@ func execTasks(p *TaskPlan, rc *simkit.RunCtx) {
 			}
 			s.running[i]--
 			e.EndSeq, e.EndT, e.Ended = simrt.Seq(), simrt.Now(), true
+			if ts.Panic && n == 1 {
+				// a failed execution is an execution: everything the statement says about later submissions holds
+				rc.Fault("task-panic")
+				panic(fmt.Sprintf("injected panic in task %d", i))
+			}
 			return nil
 		})
 		if ts.MaxDelay >= 0 {
